@@ -24,7 +24,11 @@ func httpEntries(c *Ctx) []*ssa.Function {
 	return out
 }
 
+// tableCtx gives boundConstAt access to the loaded program (read-only tables).
+var tableCtx *Ctx
+
 func checkC11(c *Ctx, r *Report) {
+	tableCtx = c
 	r.Explanation = "Panic-freedom and no-wedge clauses decided on go/ssa for every request: (R1) no dereference of an optional (pointer) member of the request model without a dominating non-nil test of the same access path (one call level of caller-side guards accepted); (R2) every index/slice expression in the request path of the API/processor/convert packages is in range by a dominating length test, a range loop, an array bound, the strings.Split lemma or the subscriber-pool prefix invariant (itself checked: every insertion into the pool is dominated by HasPrefix(supi, \"imsi-\")); (R3) no panic/Fatal/os.Exit call site is reachable from a route handler; (R4) every Lock taken in request code is followed by its deferred Unlock before any instruction that may panic, or its critical section contains no instruction that may panic - so a recovered panic cannot leave a subscriber locked; (R5) every problem status is a 4xx constant."
 	r.Undecided = []string{"panics inside libraries (gin, openapi, go-diameter, mongo)", "nil members of peer answers (rating/account servers): outside the quantifier", "the BER codec and CDR file encoder reached from the handlers are covered by C04/C16/C03"}
 	r.Trusted = append(r.Trusted, "strings.Split(s, sep) returns at least one element for a non-empty sep", "gin recovers handler panics into a 500 (that is exactly why R4 is needed)")
@@ -1076,6 +1080,22 @@ func nonNilAddr(addr ssa.Value) bool {
 func boundConstAt(v ssa.Value, at ssa.Instruction) (int64, bool) {
 	if k, ok := constInt(v); ok {
 		return k, true
+	}
+	// a member of an element of a read-only table (prefix lengths per SUPI type ...):
+	// the largest value the table holds
+	if tableCtx != nil {
+		if vals, ok := tableFieldValues(tableCtx, v); ok && len(vals) > 0 {
+			max := vals[0]
+			for _, k := range vals {
+				if k > max {
+					max = k
+				}
+				if k < 0 {
+					return 0, false
+				}
+			}
+			return max, true
+		}
 	}
 	lenOf := func(v ssa.Value) (int64, bool) {
 		call, ok := v.(*ssa.Call)
